@@ -1041,6 +1041,53 @@ theorem ext_fma_swap_caseZ1 (p1 p2 p3 p4 : Bool) (x y z : U128) (m : RoundingMod
   rw [hnd]; omega
 
 
+open Dec.C02GenFmaWrap in
+/-- **the arm after the swap** (second pass), given `AarSpec`: product of at most 34 digits, `delta = −1`, opposite signs -/
+theorem ext_fma_swap_arm26 (haar : AarSpec) (p1 p2 p3 p4 : Bool) (x y z : U128) (m : RoundingMode) (f : UInt32)
+    {s1 s2 s3 : Bool} {c1 c2 c3 : Nat} {e1 e2 e3 : Int} {zs ps ze pe : UInt64} {C3 : U128} {C4 : U256} {q3 q4 e3w e4w : Int32}
+    (H : HandoverFacts s1 s2 s3 c1 c2 c3 e1 e2 e3 zs ps ze pe C3 C4 q3 q4 e3w e4w) (tmp : F64U)
+    (hfront : bid128_ext_fma p1 p2 p3 p4 x y z m f = caseLoop p1 p2 p3 p4 m f zs ps ze pe C3 C4 q3 q4 e3w e4w tmp)
+    (hd : (ndigits c3 : Int) + e3 - ndigits (c1 * c2) - (e1 + e2) = -1) (hq4 : ndigits (c1 * c2) ≤ 34)
+    (hsign : (s1 != s2) ≠ s3) :
+    ∃ lt gt ilt igt : Bool, bid128_ext_fma p1 p2 p3 p4 x y z m f =
+      .ok (ofBits (encode (fmaD (modeOf m) false (.fin s1 c1 e1) (.fin s2 c2 e2) (.fin s3 c3 e3)).1), lt, gt, ilt, igt,
+        f ||| UInt32.ofNat (fmaD (modeOf m) false (.fin s1 c1 e1) (.fin s2 c2 e2) (.fin s3 c3 e3)).2) := by
+  have a := H.q3_range; have b := H.q4_range
+  have h1 := H.e1lo; have h2 := H.e1hi; have h3 := H.e2lo; have h4 := H.e2hi; have h5 := H.e3lo; have h6 := H.e3hi
+  have hdv := H.delta_val
+  have hnd : (-(q3 + e3w - q4 - e4w)).toInt = (ndigits (c1 * c2) : Int) + (e1 + e2) - ndigits c3 - e3 := by
+    rw [i32neg _ _ hdv (by omega) (by omega)]; omega
+  have hlt : c1 * c2 < 10 ^ 34 := (ndigits_le_iff H.prod_pos).1 hq4
+  obtain ⟨w2, w3, v1, v2⟩ := swap_coeff C3 C4 (by rw [H.hC4]; exact hlt)
+  obtain ⟨lt, gt, ilt, igt, h⟩ := arm26_fma_swapped haar m f s1 s2 s3 c1 c2 c3 e1 e2 ⟨C4.w0, C4.w1⟩ ⟨C3.w0, C3.w1, C4.w2, C4.w3⟩
+    (ndigits (c1 * c2)) (ndigits c3) e3 q4 q3 e4w e3w (-(q3 + e3w - q4 - e4w)) false false false false H.hq4 H.hq3 b.1 hq4
+    (by rw [v1, H.hC4]) H.prod_pos (lt_pow_ndigits _) a.1 a.2 (by rw [v2, H.hC3]) H.c3pos (lt_pow_ndigits _) h5 h6 (by omega)
+    (by omega) H.he4 H.he3 hnd (by rw [hnd]; omega) (by rw [hnd]; omega) hsign
+  rw [← H.hzs, ← H.hps] at h
+  refine ⟨lt, gt, ilt, igt, ?_⟩
+  have k34 : (c_P34 : Int32).toInt = 34 := rfl
+  have hdm1 : (-(q3 + e3w - q4 - e4w) - 1).toInt = (ndigits (c1 * c2) : Int) + (e1 + e2) - ndigits c3 - e3 - 1 :=
+    i32sub _ 1 _ 1 hnd rfl (by omega) (by omega)
+  rw [hfront, first_pass_swaps p1 p2 p3 p4 m f H tmp (by omega) hq4]
+  refine run_arm26 m 4094 _ _ ?_ ?_ ?_ ?_ h
+  · rw [decide_eq_true_eq, ge_iff_le, Int32.le_iff_toInt_le]
+    show (0 : Int) ≤ (-(q3 + e3w - q4 - e4w)).toInt
+    rw [hnd]; omega
+  · show ¬ case1Cond q4 e4w (-(q3 + e3w - q4 - e4w)) c_P34 = true
+    unfold case1Cond
+    rw [Bool.or_eq_true, Bool.and_eq_true, decide_eq_true_eq, beq_iff_eq, Int32.le_iff_toInt_le, ← Int32.toInt_inj, hdm1, hnd, k34]
+    omega
+  · show ¬ (c_P34 == (-(q3 + e3w - q4 - e4w))) = true
+    rw [beq_iff_eq, ← Int32.toInt_inj, hnd, k34]; omega
+  · show ¬ (mid26 q4 q3 (-(q3 + e3w - q4 - e4w)) c_P34 &&
+      !((decide ((-(q3 + e3w - q4 - e4w)) ≤ (1 : Int32))) && (zs != ps))) = true
+    have e1' : decide ((-(q3 + e3w - q4 - e4w)) ≤ (1 : Int32)) = true := by
+      rw [decide_eq_true_eq, Int32.le_iff_toInt_le, hnd]; show _ ≤ (1 : Int); omega
+    have e2' : (zs != ps) = true := by
+      rw [H.hps, H.hzs, Dec.C02GenFmaSwap.sgnW_bne]; cases hh : (s1 != s2) <;> cases s3 <;> simp_all
+    rw [e1', e2']; simp
+
+
 /-! ## 7. `bid128_ext_fma` and `bid128_fma` on numbers, case by case (tests in terms of digit counts and exponents) -/
 
 open Dec.C01GenMul (dOf)
@@ -1184,7 +1231,21 @@ theorem ext_fma_ok_arm26 (haar : AarSpec) (p1 p2 p3 p4 : Bool)
   unfold ExtFmaOK; rw [hx, hy, hz]
   exact ext_fma_arm26 haar p1 p2 p3 p4 x y z m f (HandoverFacts.of hh h12 h3) tmp hfront hd0 hd1 hsign
 
+open Dec.C02GenFmaWrap in
+/-- **the arm after the swap** (second pass), given `AarSpec`: product of at most 34 digits, `delta = −1`, opposite signs -/
+theorem ext_fma_ok_swap_arm26 (haar : AarSpec) (p1 p2 p3 p4 : Bool) (hq4 : ndigits (c1 * c2) ≤ 34)
+    (hd : (ndigits c3 : Int) + e3 - ndigits (c1 * c2) - (e1 + e2) = -1) (hsign : (s1 != s2) ≠ s3) :
+    ExtFmaOK p1 p2 p3 p4 x y z m f := by
+  obtain ⟨zs, ps, ze, pe, C3, C4, q3, q4, e3w, e4w, tmp, hh, hfront⟩ := front_spec p1 p2 p3 p4 x y z m f hx hy hz h12 h3
+  unfold ExtFmaOK; rw [hx, hy, hz]
+  exact ext_fma_swap_arm26 haar p1 p2 p3 p4 x y z m f (HandoverFacts.of hh h12 h3) tmp hfront hd hq4 hsign
+
 /-! the same for `bid128_fma` -/
+
+theorem fma_ok_swap_arm26 (haar : Dec.C02GenFmaWrap.AarSpec) (hq4 : ndigits (c1 * c2) ≤ 34)
+    (hd : (ndigits c3 : Int) + e3 - ndigits (c1 * c2) - (e1 + e2) = -1) (hsign : (s1 != s2) ≠ s3) : FmaOK x y z m f :=
+  FmaOK.of_ext (ext_fma_ok_swap_arm26 x y z m f hx hy hz h12 h3 haar _ _ _ _ hq4 hd hsign)
+
 
 theorem fma_ok_case7 (h34 : 34 < ndigits (c1 * c2)) (hlow : (ndigits c3 : Int) + e3 ≤ e1 + e2) : FmaOK x y z m f :=
   FmaOK.of_ext (ext_fma_ok_case7 x y z m f hx hy hz h12 h3 _ _ _ _ h34 hlow)
